@@ -58,6 +58,24 @@ def reset_stats():
     return STATS
 
 
+def reset_state():
+    """make a job independent of what ran before it in the same worker process: fresh-name counters and the
+    AST-id keyed caches start from scratch (z3's heuristics are sensitive to symbol names/order)"""
+    _fresh[0] = 0
+    _frac_cache.clear()
+    _int_cache.clear()
+    _sqrt_cache.clear()
+    del GLOBAL_SIDE[:]
+    FRAC_INTS[0] = False
+    try:
+        from . import npx, fp
+        npx._rh[0] = None
+        fp.reset()
+        fp._n[0] = 0
+    except Exception:
+        pass
+
+
 # ----------------------------------------------------------------- lifting
 def RV(x):
     """exact z3 real numeral of a Python/NumPy number."""
@@ -312,6 +330,9 @@ class Sym:
             return SymC.of(self) / o
         r = self._bin(o, lambda a, b: a / b, int_ok=False)
         if FRAC_INTS[0] and isinstance(r, Sym) and is_intlike(o):
+            st = z3.simplify(r.t)
+            if (self.is_int or self.frac is not None) and _integral_linear(st):
+                return Sym(st, True)          # exact division of integer terms by a constant (e.g. (16 k) / 16)
             if self.is_int:
                 r.frac = (self.t, lift(o))
             elif self.frac is not None:
@@ -571,11 +592,37 @@ def to_int_term(x):
     return z3.ToInt(lift(x))
 
 
+_frac_cache = {}
+
+
+def _integral_linear(t):
+    """is the (simplified) term built from integer numerals, ToReal(int terms), +, * only"""
+    if z3.is_rational_value(t):
+        return t.denominator_as_long() == 1
+    if z3.is_app(t):
+        k = t.decl().kind()
+        if k == z3.Z3_OP_TO_REAL:
+            return True
+        if k in (z3.Z3_OP_ADD, z3.Z3_OP_MUL, z3.Z3_OP_UMINUS, z3.Z3_OP_SUB):
+            return all(_integral_linear(c) for c in t.children())
+    return False
+
+
 def _frac_floor(n, d):
     """floor(n/d) for integer-valued n, d != 0 through a fresh integer q (definition as side constraint)"""
-    _fresh[0] += 1
-    qv = z3.ToReal(z3.Int(f"q!{_fresh[0]}"))
-    side(z3.Or(z3.And(d > 0, qv * d <= n, n < (qv + 1) * d), z3.And(d < 0, qv * d >= n, n > (qv + 1) * d)))
+    key = (n.get_id(), d.get_id())
+    hit = _frac_cache.get(key)
+    if hit is not None and hit[0].eq(n) and hit[1].eq(d):
+        qv = hit[2]               # the same quotient is the same integer on every path (floor is a function)
+    else:
+        _fresh[0] += 1
+        qv = z3.ToReal(z3.Int(f"q!{_fresh[0]}"))
+        _frac_cache[key] = (n, d, qv)
+    cd = const_value(d)
+    if cd is not None and cd > 0:
+        side(z3.And(qv * d <= n, n < (qv + 1) * d))
+    else:
+        side(z3.Or(z3.And(d > 0, qv * d <= n, n < (qv + 1) * d), z3.And(d < 0, qv * d >= n, n > (qv + 1) * d)))
     return qv
 
 
@@ -604,6 +651,8 @@ def trunc(x):
         x = Sym(lift(x))
     if x.is_int:
         return x
+    if FRAC_INTS[0] and _integral_linear(z3.simplify(x.t)):
+        return Sym(z3.simplify(x.t), True)
     if FRAC_INTS[0] and x.frac is not None:
         n, d = x.frac
         return Sym(z3.If(x.t >= 0, _frac_floor(n, d), -_frac_floor(-n, d)), True)
@@ -795,6 +844,19 @@ class Ctx:
         return self.solver
 
     def feasible(self, c):
+        if FRAC_INTS[0]:
+            ia = intify_all(self.pre + self.pc + self.side + [c])
+            if ia is not None:
+                s = z3.Solver()
+                s.set('timeout', self.timeout_ms)
+                s.add(*ia)
+                t0 = time.time()
+                r = s.check()
+                STATS.solver_s += time.time() - t0
+                STATS.feas_queries += 1
+                if r == z3.unknown:
+                    raise Inconclusive(f"feasibility unknown: {s.reason_unknown()}")
+                return r == z3.sat
         s = self._solver()
         s.push()
         s.add(*self.pc)
@@ -987,15 +1049,121 @@ def run_single(fn, pre=()):
     return leaves[0]
 
 
+# ----------------------------------------------------------------- integer view of integer-valued real terms
+class NotIntegral(Exception):
+    pass
+
+
+_int_cache = {}
+
+
+def intify(e):
+    """rebuild a formula whose Real-sorted subterms are all integer valued (ToReal of Int terms, integer numerals,
+    +, -, *, If) in pure Int sort.  Equivalence preserving; raises NotIntegral otherwise."""
+    key = e.get_id()
+    hit = _int_cache.get(key)
+    if hit is not None and hit[0].eq(e):
+        return hit[1]
+    r = _intify(e)
+    _int_cache[key] = (e, r)
+    return r
+
+
+def _intify(e):
+    if z3.is_bool(e):
+        if z3.is_true(e) or z3.is_false(e):
+            return e
+        k = e.decl().kind()
+        ch = e.children()
+        if k in (z3.Z3_OP_AND, z3.Z3_OP_OR):
+            cs = [intify(c) for c in ch]
+            return z3.And(*cs) if k == z3.Z3_OP_AND else z3.Or(*cs)
+        if k == z3.Z3_OP_NOT:
+            return z3.Not(intify(ch[0]))
+        if k == z3.Z3_OP_IMPLIES:
+            return z3.Implies(intify(ch[0]), intify(ch[1]))
+        if k == z3.Z3_OP_ITE:
+            return z3.If(intify(ch[0]), intify(ch[1]), intify(ch[2]))
+        if k in (z3.Z3_OP_LE, z3.Z3_OP_LT, z3.Z3_OP_GE, z3.Z3_OP_GT, z3.Z3_OP_EQ, z3.Z3_OP_DISTINCT):
+            if z3.is_bool(ch[0]):
+                a, b = intify(ch[0]), intify(ch[1])
+            else:
+                a, b = _intify_term(ch[0]), _intify_term(ch[1])
+            return {z3.Z3_OP_LE: lambda: a <= b, z3.Z3_OP_LT: lambda: a < b, z3.Z3_OP_GE: lambda: a >= b, z3.Z3_OP_GT: lambda: a > b,
+                    z3.Z3_OP_EQ: lambda: a == b, z3.Z3_OP_DISTINCT: lambda: a != b}[k]()
+        if k == z3.Z3_OP_UNINTERPRETED and not ch:
+            return e
+        raise NotIntegral(str(e.decl()))
+    return _intify_term(e)
+
+
+def _intify_term(t):
+    if z3.is_int(t):
+        return t
+    if z3.is_rational_value(t):
+        if t.denominator_as_long() != 1:
+            raise NotIntegral(str(t))
+        return z3.IntVal(t.numerator_as_long())
+    k = t.decl().kind()
+    ch = t.children()
+    if k == z3.Z3_OP_TO_REAL:
+        return ch[0]
+    if k == z3.Z3_OP_ADD:
+        cs = [_intify_term(c) for c in ch]
+        out = cs[0]
+        for c in cs[1:]:
+            out = out + c
+        return out
+    if k == z3.Z3_OP_MUL:
+        cs = [_intify_term(c) for c in ch]
+        out = cs[0]
+        for c in cs[1:]:
+            out = out * c
+        return out
+    if k == z3.Z3_OP_SUB:
+        cs = [_intify_term(c) for c in ch]
+        out = cs[0]
+        for c in cs[1:]:
+            out = out - c
+        return out
+    if k == z3.Z3_OP_UMINUS:
+        return -_intify_term(ch[0])
+    if k == z3.Z3_OP_ITE:
+        return z3.If(intify(ch[0]), _intify_term(ch[1]), _intify_term(ch[2]))
+    raise NotIntegral(str(t.decl()))
+
+
+def intify_all(assertions):
+    try:
+        return [intify(z3.simplify(a) if not z3.is_bool(a) else a) for a in assertions]
+    except NotIntegral:
+        return None
+
+
 # ----------------------------------------------------------------- queries
 def check(assertions, timeout_ms=60000, want_model=True):
     """-> ('unsat'|'sat'|'unknown', model or None)"""
     s = z3.Solver()
     s.set('timeout', timeout_ms)
-    s.add(*GLOBAL_SIDE)
-    s.add(*assertions)
+    alist = list(GLOBAL_SIDE) + list(assertions)
+    if FRAC_INTS[0]:
+        ia = intify_all(alist)
+        if ia is not None:
+            alist = ia
+    s.add(*alist)
     t0 = time.time()
     r = s.check()
+    if r == z3.unknown:
+        # z3's non-linear / mixed-integer heuristics are seed sensitive: two more attempts before giving up
+        for seed in (7, 23):
+            s2 = z3.Solver()
+            s2.set('timeout', timeout_ms)
+            s2.set('random_seed', seed)
+            s2.add(*alist)
+            r = s2.check()
+            if r != z3.unknown:
+                s = s2
+                break
     STATS.solver_s += time.time() - t0
     STATS.queries += 1
     if r == z3.sat:
